@@ -32,7 +32,7 @@ func (w *World) monitorTripped(d *SimDisk) bool {
 }
 
 func (w *World) decodable() bool {
-	return w.cfg.Format == FmtBinary || w.cfg.Marshaler != "gob"
+	return w.cfg.Format == FmtBinary || w.cfg.Marshaler == "json" || w.cfg.Marshaler == ""
 }
 
 func (w *World) installStoreMonitor(d *SimDisk) {
@@ -192,14 +192,14 @@ func (w *World) judgePersist(op *Op, t *Tree, root *mast.Root, reach []string, s
 		}
 		w.rootReg[key] = sig
 	case "C14":
-		if !w.decodable() || w.cfg.Marshaler != "json" || w.cfg.CmpScale != 0 {
+		if !w.decodable() || w.cfg.Marshaler == "gob" || w.cfg.CmpScale != 0 {
 			return
 		}
 		w.st.OracleEvals++
 		// the whole persisted tree is predicted independently: layers by the harness's CRC-64 /
-		// divisibility rule, shape by the reference builder, bytes by the independent encoder,
-		// names by the independent BLAKE2b
-		indep := func(k int) int { return IndepLayer(w.kd.Key(k), w.cfg.BF) }
+		// divisibility rule (over the configured marshaler's bytes for marshal-layered keys), shape
+		// by the reference builder, bytes by the independent encoder, names by the independent BLAKE2b
+		indep := func(k int) int { return IndepLayerM(w.kd.Key(k), w.cfg.BF, w.cfg.MarshalFn()) }
 		ref := BuildRef(t.model.Entries(), indep, w.cfg.BF)
 		if int(root.Height) != ref.H {
 			// not the canonical height under the published layer rule: either the layer function
@@ -215,7 +215,7 @@ func (w *World) judgePersist(op *Op, t *Tree, root *mast.Root, reach []string, s
 			}
 			return
 		}
-		marshal := json.Marshal
+		marshal := w.cfg.MarshalFn()
 		kbody := func(k int) []byte { b, _ := marshal(w.kd.Key(k)); return b }
 		vbody := func(v int) []byte { b, _ := marshal(w.vd.Val(v)); return b }
 		ref.Encode(w.cfg.Format, kbody, vbody)
@@ -829,10 +829,28 @@ func (w *World) opDiffLinks(op *Op) {
 
 	// --- DiffLinks
 	disk := w.disks[d]
+	preCapture := false // take a clone / open a cursor on the handles before diffing them
 	runDL := func(cache mast.NodeCache, failAt int) (added, removed []string, nonString int, loaded []string, calls int, rr callResult, ok bool) {
 		oldM, newM, ok := loadPair(cache)
 		if !ok {
 			return nil, nil, 0, nil, 0, rr, false
+		}
+		if preCapture {
+			r := guard(func() error {
+				if _, err := newM.Clone(ctx); err != nil {
+					return err
+				}
+				if oldM != nil {
+					if _, err := oldM.Cursor(ctx); err != nil {
+						return err
+					}
+				}
+				return nil
+			})
+			if r.bad() {
+				w.failFor("C01", "clone-fails", "Clone/Cursor before diff: %s", r)
+				return nil, nil, 0, nil, 0, rr, false
+			}
 		}
 		disk.BeginCall()
 		if failAt > 0 {
@@ -978,6 +996,23 @@ func (w *World) opDiffLinks(op *Op) {
 				}
 			}
 		}
+		// the same diff on handles that have been cloned / had a cursor opened on them first
+		{
+			preCapture = true
+			a5, r5, ns5, _, _, rr5, ok := runDL(nil, 0)
+			preCapture = false
+			if !ok {
+				return
+			}
+			if rr5.bad() {
+				w.fail("difflinks-fails/"+rel+"/after-clone", "DiffLinks on handles that were cloned first: %s", rr5)
+				return
+			}
+			w.st.Probes["difflinks-after-clone-or-cursor"]++
+			if !judge("after-clone", a5, r5, ns5) {
+				return
+			}
+		}
 		// the same diff computed by trees that load through the world's shared cache
 		if w.cache != nil {
 			a2, r2, ns2, _, _, rr2, ok := runDL(asNodeCache(w.cache), 0)
@@ -1044,6 +1079,17 @@ func (w *World) opDiffLinks(op *Op) {
 		}
 		if tooMuch("difflinks", "", len(loadedDL)) {
 			return
+		}
+		{
+			preCapture = true
+			_, _, _, loadedCap, _, rrc, ok := runDL(nil, 0)
+			preCapture = false
+			if !ok {
+				return
+			}
+			if !rrc.bad() && tooMuch("difflinks", "/after-clone", len(loadedCap)) {
+				return
+			}
 		}
 		// DiffIter
 		oldM, newM, ok := loadPair(nil)
